@@ -759,6 +759,15 @@ class Interp:
         elif isinstance(v, SArr):
             if name == "__class__":
                 return Obj("pytype", {"__name__": "ndarray"}, name="ndarray")
+            if name == "flat" and v.sym is None:
+                # ndarray.flat: a 1-d window on the elements in INDEX (row-major) order
+                def _fget(k, _v=v):
+                    return _v.data.get(_v.indices()[k], Opaque("uninit"))
+
+                def _fset(k, x, _v=v):
+                    _v.data[_v.indices()[k]] = x
+
+                return Obj("flatiter", {"__getitem__": Builtin("flat.__getitem__", _fget), "__setitem__": Builtin("flat.__setitem__", _fset), "__len__": Builtin("flat.__len__", lambda _v=v: len(_v.indices()))}, name="flat")
             if name == "dtype":
                 if getattr(v, "dt", None) is not None:
                     return v.dt
